@@ -56,6 +56,16 @@ def impl_case(case):
     desc = case['desc']
     fail = None
     lines = []
+    if (len(desc['tracks']) + desc['tpb']) % 4 == 0:
+        # an earlier save in the same process that was refused part-way through a track (a real-time message after storable
+        # ones; text the charset cannot encode) must leave nothing behind that ends up in this file
+        import mido
+        for poison in ([mido.Message('note_on', note=1, time=3), mido.Message('clock')],
+                       [mido.Message('note_on', note=2), mido.MetaMessage('text', text='snow\u2603man')]):
+            try:
+                save_bytes(mido.MidiFile(tracks=[mido.MidiTrack(poison)]))
+            except Exception:
+                pass
     try:
         mid = smf.build_file(desc)
         data = save_bytes(mid)
@@ -159,7 +169,7 @@ def make_bad(rng, desc):
 
 def gen(ck):
     rng = ck.rng
-    n = 700 if ck.tier == 'quick' else 30000
+    n = 4000 if ck.tier == 'quick' else 60000
     cases = []
     for _ in range(n):
         desc = smf.random_file(rng)
